@@ -51,6 +51,7 @@ def run(ctx):
         ctx.guard("C11", "bs-tables", lambda: data.block_size_tables(ctx, prog))
         ctx.guard("C11", "const values", lambda: data.const_census(ctx, prog, data.CONST_SCOPES["C11"], floor=1))
         ctx.guard("C11", "element-asserts", lambda: validate.element_range_asserts(ctx, prog))
+        ctx.guard("C11", "normalize-step", lambda: normal.normalize_step(ctx, prog))
         ctx.guard("C11", "summaries", lambda: summary.check(ctx, prog, r'internals::(hash|hash_dual|compare|utils)::(?!.*(Windows|compare_easy))', floor=50))
         ctx.guard("C11", "generic consts", lambda: summary.check_consts(ctx, prog, floor=13))
         ctx.guard("C11", "path summaries", lambda: summary.check_paths(ctx, prog, r'internals::(hash|hash_dual|compare|utils)::(?!.*(Windows|compare_easy))', floor=39))
